@@ -113,11 +113,17 @@ CasesTyped(blk) ==
                 c1 == TypedComps(r, 20)
                 bad == [st \in 1..5 |-> (r[41] \div (2 ^ (st - 1))) % 2 = 1 \/ r[41] % 32 = 0]
                 bi == [st \in 1..5 |-> (r[41 + st] % Len(BadPool[st])) + 1]
-                ann0 == [st \in 1..5 |-> [p |-> <<TypedObj>>, n |-> TypedName[st], st |-> st, good |-> 1, c |-> c0[st], bi |-> 0]]
+                \* every second case: the interval and the volume of the first file are wide values (good = 2: components wc
+                \* with digit-sequence counts, see ConfSyntax!WidePool)
+                wide == [st \in 1..5 |-> st \in {4, 5} /\ j % 2 = 0]
+                wc == [st \in 1..5 |-> IF wide[st] THEN WidePool[st - 3][(r[43 + st] % Len(WidePool[st - 3])) + 1] ELSE <<>>]
+                ann0 == [st \in 1..5 |-> IF wide[st]
+                                         THEN [p |-> <<TypedObj>>, n |-> TypedName[st], st |-> st, good |-> 2, c |-> <<>>, bi |-> 0, wc |-> wc[st]]
+                                         ELSE [p |-> <<TypedObj>>, n |-> TypedName[st], st |-> st, good |-> 1, c |-> c0[st], bi |-> 0, wc |-> <<>>]]
                 ann1 == [st \in 1..5 |-> IF bad[st]
-                                         THEN [p |-> <<TypedObj>>, n |-> TypedName[st], st |-> st, good |-> 0, c |-> <<>>, bi |-> bi[st]]
-                                         ELSE [p |-> <<TypedObj>>, n |-> TypedName[st], st |-> st, good |-> 1, c |-> c1[st], bi |-> 0]]
-                t0 == TypedTree([st \in 1..5 |-> TypedText(st, c0[st])])
+                                         THEN [p |-> <<TypedObj>>, n |-> TypedName[st], st |-> st, good |-> 0, c |-> <<>>, bi |-> bi[st], wc |-> <<>>]
+                                         ELSE [p |-> <<TypedObj>>, n |-> TypedName[st], st |-> st, good |-> 1, c |-> c1[st], bi |-> 0, wc |-> <<>>]]
+                t0 == TypedTree([st \in 1..5 |-> IF wide[st] THEN WideText(wc[st]) ELSE TypedText(st, c0[st])])
                 t1 == TypedTree([st \in 1..5 |-> IF bad[st] THEN BadPool[st][bi[st]] ELSE TypedText(st, c1[st])])
             IN { CaseT(j, 0, t0, LcgTape(Mix(x, 1), 64), ann0), CaseT(j, 1, t1, LcgTape(Mix(x, 2), 64), ann1) }
           : j \in { jj \in 1..NBig : jj % NBlocks = blk - 1 } }
@@ -147,7 +153,9 @@ TypedOK ==
             key == <<<<FoldStr(TypedObj)>>, FoldStr(ty.n), "s">>
             m == Meaning(c.t)
         IN /\ key \in DOMAIN m
-           /\ IF ty.good = 1 THEN m[key] = TypedText(ty.st, ty.c) /\ InLang(ty.st, m[key]) /\ Denote(ty.st, m[key]) = TypedValue(ty.st, ty.c)
+           /\ IF ty.good = 2 THEN m[key] = WideText(ty.wc) /\ InLang(ty.st, m[key]) /\ WideDenote(ty.st, m[key]) = WideValue(ty.st, ty.wc)
+                              /\ DLe(WideValue(ty.st, ty.wc), UIntMax)
+              ELSE IF ty.good = 1 THEN m[key] = TypedText(ty.st, ty.c) /\ InLang(ty.st, m[key]) /\ Denote(ty.st, m[key]) = TypedValue(ty.st, ty.c)
                               /\ TypedValue(ty.st, ty.c) >= 0
               ELSE m[key] = BadPool[ty.st][ty.bi] /\ ~InLang(ty.st, m[key])
 
@@ -174,6 +182,21 @@ TypedExamples ==
     /\ TypedValue(1, << <<7>> >>) = 1 /\ TypedValue(1, << <<2>> >>) = 0                       \* true, false
     /\ ~InLang(1, <<112,105,122,122,97>>)                                     \* "pizza"
     /\ \A st \in 1..5 : \A i \in DOMAIN BadPool[st] : ~InLang(st, BadPool[st][i])
+    \* digit arithmetic against TLC's own integers where they suffice, and against known wide values
+    /\ \A a \in {0, 7, 99, 1024, 46340} : \A b \in {0, 1, 9, 10, 999, 46340} :
+          DAdd(Dec10(a), Dec10(b)) = Dec10(a + b) /\ DMul(Dec10(a), Dec10(b)) = Dec10(a * b)
+    /\ DLe(Dec10(9), Dec10(10)) /\ ~DLe(Dec10(10), Dec10(9)) /\ DLe(UIntMax, UIntMax) /\ ~DLe(DAdd(UIntMax, <<49>>), UIntMax)
+    /\ WideValue(4, << <<Dec10(136),121>> >>) = <<52,50,56,56,56,57,54,48,48,48>>                 \* 136y = 4288896000
+    /\ WideValue(5, << <<Dec10(3),71>> >>) = <<51,50,50,49,50,50,53,52,55,50>>                    \* 3G = 3221225472
+    /\ WideValue(5, << <<Dec10(4095),77>> >>) = <<52,50,57,51,57,49,56,55,50,48>>                 \* 4095M = 4293918720
+    /\ WideValue(4, WidePool[1][2]) = UIntMax /\ WideValue(4, WidePool[1][4]) = UIntMax /\ WideValue(4, WidePool[1][6]) = UIntMax
+    /\ WideValue(5, WidePool[2][3]) = UIntMax /\ WideValue(5, WidePool[2][8]) = UIntMax
+    /\ WideValue(4, WidePool[1][11]) = <<50,49,52,55,52,56,51,54,52,56>>                          \* 2^31
+    /\ WideValue(5, WidePool[2][10]) = <<50,49,52,55,52,56,51,54,52,56>> /\ WideValue(5, WidePool[2][11]) = <<50,49,52,55,52,56,51,54,52,56>>
+    /\ \A k \in 1..2 : \A i \in DOMAIN WidePool[k] :
+          /\ InLang(k + 3, WideText(WidePool[k][i]))
+          /\ WideDenote(k + 3, WideText(WidePool[k][i])) = WideValue(k + 3, WidePool[k][i])
+          /\ DLe(WideValue(k + 3, WidePool[k][i]), UIntMax)
 
 (* a family of typed values: text is in the language and the two evaluations agree *)
 TypedFamily ==
